@@ -140,6 +140,16 @@ func changeCase(kind string, s txgen.TxSpec, q feegen.Quote, d dest, hyp bool) {
 			if left.Cmp(quoted) < 0 {
 				c.Violate(site+"/underpays", fmt.Sprintf("fee left %s < quoted %s for estimated size (%d std, %d data)", left, quoted, estAfter.TotalStdBytes, estAfter.TotalDataBytes), tw)
 			}
+			// the same against the size computed from the plain description of the final transaction
+			if es, ed, ok := feegen.EstSize(txgen.FromTx(tx)); ok {
+				c.Tally("independent-size-estimate")
+				if es != estAfter.TotalStdBytes || ed != estAfter.TotalDataBytes {
+					c.Violate("EstimateSizeWithTypes/differs-from-the-final-size", fmt.Sprintf("library %d std + %d data, final size with 107-byte unlocking scripts %d std + %d data", estAfter.TotalStdBytes, estAfter.TotalDataBytes, es, ed), tw)
+				}
+				if q2 := q.Quoted(es, ed); left.Cmp(q2) < 0 {
+					c.Violate(site+"/underpays", fmt.Sprintf("fee left %s < quoted %s for the final size (%d std, %d data)", left, q2, es, ed), tw)
+				}
+			}
 			if left.Cmp(new(big.Int).Add(quoted, slack)) > 0 {
 				c.Violate(site+"/overpays", fmt.Sprintf("fee left %s > quoted %s + slack %s", left, quoted, slack), tw)
 			}
